@@ -126,6 +126,11 @@ static int isap_dec_##P(unsigned char *m, size_t *mlen, const unsigned char *c, 
     unsigned char snap[sizeof(KT)];                                                                   \
     int res;                                                                                          \
     P##_isap_aead_init(pk, k);                                                                        \
+    if (cur_rng && rng_below(cur_rng, 3) == 0) {      /* the receiver restores a saved key */          \
+        unsigned char saved[80];                                                                      \
+        P##_isap_aead_save_key(pk, saved); P##_isap_aead_free(pk); P##_isap_aead_load_key(pk, saved);  \
+        vf_count("isap_decrypt_with_restored_key", 1);                                                \
+    }                                                                                                 \
     memcpy(snap, pk, sizeof(KT));                                                                     \
     res = P##_isap_aead_decrypt(m, mlen, c, clen, ad, adlen, n, pk);                                  \
     if (memcmp(snap, pk, sizeof(KT)) != 0)                                                            \
@@ -533,7 +538,9 @@ static void sess_##P(rng_t *r, uint64_t idx)                                    
             P##_aead_encrypt_finalize(st, c + mlen);                                                  \
             vf_eq("C14", "sess:" #P ":packet-ciphertext", "packet i vs one-shot under N+i", c, exp, mlen + 16, "\"n0\":\"%s\",\"packet\":%u,\"chain\":%u", vf_h(n0, 16), i, chain); \
             /* the nonce field was right: then a wrong packet is (also) a wrong incremental encryption */ \
-            if (nonce_ok) vf_eq("C01", "sess:" #P ":packet-ciphertext", "packet i of a session vs one-shot (nonce field correct)", c, exp, mlen + 16, "\"n0\":\"%s\",\"packet\":%u,\"mlen\":%zu", vf_h(n0, 16), i, mlen); \
+            /* C01 names the incremental entry point: packet i must be the specification's value under N+i whatever the root cause \
+               (nonce_field_ok = 0 points at C14) */ \
+            vf_eq("C01", "sess:" #P ":packet-ciphertext", "packet i of a session vs one-shot under N+i", c, exp, mlen + 16, "\"n0\":\"%s\",\"packet\":%u,\"mlen\":%zu,\"nonce_field_ok\":%d", vf_h(n0, 16), i, mlen, nonce_ok); \
             if (nonce_ok) vf_eq("C07", "sess:" #P ":packet-ciphertext", "packet i on a used state vs one-shot (nonce field correct)", c, exp, mlen + 16, "\"n0\":\"%s\",\"packet\":%u,\"mlen\":%zu", vf_h(n0, 16), i, mlen); \
             vf_out(c, mlen + 16);                                                                     \
         } else {                                                                                      \
